@@ -286,7 +286,7 @@ def check(pid, tier, seed, args, t0):
                 rep = "\n".join("# " + l for l in out.splitlines()[-25:])
                 open(rp, "w").write("# the implementation (harness %s) terminated abnormally (exit %s) on this case\n%s\n%s\n" % (exe, rc, rep, by_id.get(last, "\n".join(cases[:20]))))
                 violations.append((rp, False))
-        if (broken or diffs) and not violations and not known_hits:
+        if (broken or diffs) and not violations:
             # proof or correspondence broken, judge found nothing: widen the search once
             extra, _ = spec["gen"]("thorough" if tier == "quick" else "thorough", seed + 977)
             extra = extra[:4000]
